@@ -21,11 +21,11 @@ class Failure:
         return "Failure(exec=%s line=%s event=%s)" % (self.exec_id, self.local_line, self.event[:200])
 
 
-def _run_once(spec_dir, module, cfg, path, timeout, heap, dfs, env):
+def _run_once(spec_dir, module, cfg, path, timeout, heap, dfs, env, lib=()):
     e = {"TRACE": path}
     if env:
         e.update(env)
-    r = tlc.run(module, cfg, spec_dir, workers=1, timeout=timeout, env=e, heap=heap, dfs_queue=dfs)
+    r = tlc.run(module, cfg, spec_dir, workers=1, timeout=timeout, env=e, heap=heap, dfs_queue=dfs, lib=lib)
     m = re.search(r'<<"REJECTED-AT", (\d+)>>', r.out)
     if m:
         return r, int(m.group(1))
@@ -35,7 +35,7 @@ def _run_once(spec_dir, module, cfg, path, timeout, heap, dfs, env):
 
 
 def validate(spec_dir, module, cfg, chunks, workdir, timeout=900, max_fail=6, heap="6g", dfs=False, env=None,
-             prefix=()):
+             prefix=(), lib=()):
     """chunks: list of (exec_id, [json lines]).  prefix: lines put at the top of every file (e.g. a
     global header).  Returns (n_accepted_execs, [Failure...], [TlcResult...])."""
     failures, results, accepted = [], [], 0
@@ -51,7 +51,7 @@ def validate(spec_dir, module, cfg, chunks, workdir, timeout=900, max_fail=6, he
                 for ln in lines:
                     f.write(ln.rstrip("\n") + "\n")
                 n += len(lines)
-        r, rej = _run_once(spec_dir, module, cfg, path, timeout, heap, dfs, env)
+        r, rej = _run_once(spec_dir, module, cfg, path, timeout, heap, dfs, env, lib)
         results.append(r)
         os.unlink(path)
         if rej is None:
